@@ -519,6 +519,30 @@ impl WithT for Run<'_> {
                     let Some(pos) = nb.iter().position(|r| r.token == tok) else {
                         return Err(format!("{}: peek_used() = {} which is not an outstanding request", what, tok));
                     };
+                    // Half of the time the caller first tries to complete a request that is *not* the
+                    // one at the front of the used ring (it has not completed yet, or another
+                    // completion is ahead of it): that must fail and change nothing -- in particular
+                    // the request stays posted, so the driver must not touch its buffers (the ledger
+                    // reports a store into a device-writable buffer that is still shared).
+                    if pick & 1 == 1 && nb.len() > 1 {
+                        let o = (pos + 1 + (*pick as usize >> 1) % (nb.len() - 1)) % nb.len();
+                        if o != pos {
+                            let other = &mut nb[o];
+                            let otok = other.token;
+                            let res = g!(what, unsafe {
+                                if other.write {
+                                    blk.complete_write_blocks(otok, &other.req, &other.buf, &mut other.resp)
+                                } else {
+                                    blk.complete_read_blocks(otok, &other.req, &mut other.buf, &mut other.resp)
+                                }
+                            });
+                            check_dev(&dev)?;
+                            if res.is_ok() {
+                                return Err(format!("{}: completing token {} succeeded although the completion at the front of the used ring is token {}", what, otok, tok));
+                            }
+                            st.class("blk_complete_attempt_for_request_not_at_front");
+                        }
+                    }
                     let mut r = nb.remove(pos);
                     if nb.iter().any(|o| o.order < r.order) {
                         ooo = true;
